@@ -41,19 +41,19 @@ def _proc_cpu(pid):
         return None
 
 
-def measure(text, kind="plss", config=""):
+def measure(text, kind="plss", config="", warmup=None):
     """Return ('ok', cpu_seconds) | ('slow', cpu_seconds_so_far) | ('inconclusive', None) | ('error', message)."""
     global _worker
     if _worker is None or _worker.poll() is not None:
         _worker = _spawn()
     cpu_before = _proc_cpu(_worker.pid) or 0.0
     try:
-        _worker.stdin.write(json.dumps({"text": text, "kind": kind, "config": config}) + "\n")
+        _worker.stdin.write(json.dumps({"text": text, "kind": kind, "config": config, "warmup": warmup}) + "\n")
         _worker.stdin.flush()
     except Exception:
         _worker = None
         return ("inconclusive", None)
-    deadline = time.time() + WALL_LIMIT_S
+    deadline = time.time() + WALL_LIMIT_S + (60 if warmup else 0)
     while True:
         remaining = deadline - time.time()
         if remaining <= 0:
@@ -69,7 +69,7 @@ def measure(text, kind="plss", config=""):
                 return ("error", ans["error"])
             return ("slow" if ans["cpu"] > THRESHOLD_CPU_S else "ok", ans["cpu"])
         used = (_proc_cpu(_worker.pid) or 0.0) - cpu_before
-        if used > THRESHOLD_CPU_S * 1.5:
+        if used > THRESHOLD_CPU_S * 1.5 and not warmup:
             break
     used = (_proc_cpu(_worker.pid) or 0.0) - cpu_before
     try:
@@ -78,7 +78,7 @@ def measure(text, kind="plss", config=""):
     except Exception:
         pass
     _worker = None
-    if used > THRESHOLD_CPU_S:
+    if used > THRESHOLD_CPU_S and not warmup:
         return ("slow", used)
     return ("inconclusive", None)
 
@@ -101,6 +101,17 @@ def _worker_main():
     warnings.simplefilter("ignore")
     for line in sys.stdin:
         req = json.loads(line)
+        wu = req.get("warmup")
+        if wu:
+            # a long session first: n parses of a short text under the given settings (not timed), then the timed parse
+            try:
+                for k in range(int(wu["n"])):
+                    if wu.get("kind") == "tract":
+                        pytrs.Tract(wu["text"], parse_qq=True, config=wu.get("config") or None)
+                    else:
+                        pytrs.PLSSDesc(wu["text"].replace("{k}", str(k % 900 + 1)), parse_qq=True, config=wu.get("config") or None)
+            except Exception:
+                pass
         t0 = time.process_time()
         try:
             cfg = req.get("config") or None
